@@ -1,7 +1,45 @@
 /- `oracle <property>`: line-protocol model driver (hand models only, never Gen/). -/
+import Golem.Driver.C01
+import Golem.Driver.C02
+import Golem.Driver.C03
+import Golem.Driver.C04
+import Golem.Driver.C05
+import Golem.Driver.C06
+import Golem.Driver.C07
+import Golem.Driver.C08
+import Golem.Driver.C09
+import Golem.Driver.C10
+import Golem.Driver.C11
+import Golem.Driver.C12
+import Golem.Driver.C13
+import Golem.Driver.C14
+import Golem.Driver.C15
+import Golem.Driver.C16
+import Golem.Driver.C17
+import Golem.Driver.C18
+import Golem.Driver.C19
 import Golem.Driver.C20
 
 def main (args : List String) : IO UInt32 := do
   match args with
+  | ["C01"] => Golem.Driver.C01.main; return 0
+  | ["C02"] => Golem.Driver.C02.main; return 0
+  | ["C03"] => Golem.Driver.C03.main; return 0
+  | ["C04"] => Golem.Driver.C04.main; return 0
+  | ["C05"] => Golem.Driver.C05.main; return 0
+  | ["C06"] => Golem.Driver.C06.main; return 0
+  | ["C07"] => Golem.Driver.C07.main; return 0
+  | ["C08"] => Golem.Driver.C08.main; return 0
+  | ["C09"] => Golem.Driver.C09.main; return 0
+  | ["C10"] => Golem.Driver.C10.main; return 0
+  | ["C11"] => Golem.Driver.C11.main; return 0
+  | ["C12"] => Golem.Driver.C12.main; return 0
+  | ["C13"] => Golem.Driver.C13.main; return 0
+  | ["C14"] => Golem.Driver.C14.main; return 0
+  | ["C15"] => Golem.Driver.C15.main; return 0
+  | ["C16"] => Golem.Driver.C16.main; return 0
+  | ["C17"] => Golem.Driver.C17.main; return 0
+  | ["C18"] => Golem.Driver.C18.main; return 0
+  | ["C19"] => Golem.Driver.C19.main; return 0
   | ["C20"] => Golem.Driver.C20.main; return 0
   | _ => IO.eprintln "usage: oracle <C01..C20>"; return 2
